@@ -2,6 +2,9 @@ import Driver.Proto
 import Gql.Async.Assemble
 import Gql.Async.Plan
 import Gql.Async.CollectDefer
+import Gql.Async.IncExec
+import Gql.Async.IncGroups
+import Driver.ExecSexp
 /-!
 Line-protocol driver for C04.
 
@@ -13,6 +16,8 @@ Commands
   `asm <mode> J`   J = {"mode-data"…} see `runCheck`: fold the payloads with `Assemble.apply`, then decide
                    the property clause (`exact` / `approx`) against the reference.
   `plan …`         `buildExecutionPlan` on a grouped field set (see `runPlan`).
+  `incexec (case SCHEMA REQ)`  the incremental executor model `IncExec.incCut` on one request in
+                   C02's s-expression syntax (see `runIncExec`).
 -/
 open Gql.Async Driver
 
@@ -370,8 +375,62 @@ def runCollect (ws : List String) : String :=
     | _, _ => "bad-op"
   | _ => "bad-op"
 
+/-! ### incexec -/
+
+def showPiece : Piece → String
+  | .merge p data => "m " ++ showJ (pathJ p) ++ " " ++ showJ (.obj data)
+  | .append p items => "a " ++ showJ (pathJ p) ++ " " ++ showJ (.arr items)
+
+def showAnn (a : IncExec.Ann) : String :=
+  showJ (.arr [pathJ a.1, .arr (a.2.map (fun g => .arr [pathJ g.1, match g.2 with
+    | some l => .str l
+    | none => .null]))])
+
+/-- `incexec (case SCHEMA (req DOC OPNAME|- VARS DATA))` →
+`varerror` | `none <spec errors> | <spec data>` |
+`ok wf=<0|1> asm=<0|1> ref=<0|1> specerrs=<n> | <initial data> | <spec data of the stripped document> | <piece> ; <piece> … | <ann> ; <ann> …`
+(`ann` = `[target path, [[delivery group path, label|null]…]]` of the piece at the same position, `IncExec.incGroups`)
+where `asm` = folding the pieces into the initial data gives exactly the cut's reference,
+`ref` = the cut's reference is the same JSON value as the specification's response data of the
+document with `@defer` removed. -/
+def runIncExec (x : C02Driver.Sexp) : C02Driver.P String := do
+  match x with
+  | .list [.atom "case", sch, req] =>
+    let s ← C02Driver.schemaOf sch
+    let (r, okv) ← C02Driver.reqOfS s req
+    if !okv then pure "varerror" else
+    let ops := Gql.Exec.Concrete.ops
+    let spec := Gql.Exec.Spec.executeRequest ops s (IncExec.stripDefer r.doc) r.opName r.vars r.root
+    let specJ := IncExec.toJ spec.data
+    let showSpec := match specJ with
+      | some j => showJ j
+      | none => "float"
+    match IncExec.incCut ops s r.doc r.opName r.vars r.root with
+    | none => pure s!"none {spec.errors.length} | {showSpec}"
+    | some c =>
+      let asm := match foldPieces c.initial c.pieces with
+        | .ok j => J.eqv j c.ref && J.eqv c.ref j
+        | .error _ => false
+      let ref := match specJ with
+        | some j => J.eqv j c.ref && J.eqv c.ref j
+        | none => false
+      let b (x : Bool) : String := if x then "1" else "0"
+      pure (s!"ok wf={b c.wf} asm={b asm} ref={b ref} specerrs={spec.errors.length} | " ++
+        showJ c.initial ++ " | " ++ showSpec ++ " | " ++ " ; ".intercalate (c.pieces.map showPiece) ++
+        " | " ++ (match IncExec.incGroups ops s r.doc r.opName r.vars r.root with
+          | some anns => " ; ".intercalate (anns.map showAnn)
+          | none => "noann"))
+  | _ => C02Driver.fail "case"
+
 def step (line : String) : String :=
   match words line with
+  | "incexec" :: _ =>
+    match C02Driver.parseSexp (C02Driver.tokenize ((line.drop 8).toString)) with
+    | none => "bad-sexp"
+    | some x =>
+      match runIncExec x with
+      | .ok s => s
+      | .error e => s!"bad-case {e}"
   | "asm" :: toks =>
     match parseJ (2 * toks.length + 2) toks with
     | some (j, []) => runCheck j
